@@ -1,6 +1,10 @@
 //! Conformance harness for flussab: drives the real code and records ndjson traces that are
 //! validated against the TLA+ specifications in /verif/spec, and replays TLC-generated cases.
+pub mod alloc;
+pub mod gen;
 pub mod parsed_cases;
+pub mod parser_drive;
+pub mod parsers;
 pub mod reader_hist;
 pub mod scan_vectors;
 pub mod sink;
@@ -9,6 +13,9 @@ pub mod trace;
 pub mod writer_hist;
 
 pub use serde_json::{json, Value};
+
+#[global_allocator]
+static GLOBAL: alloc::Counting = alloc::Counting;
 
 /// Deterministic RNG from a seed and a stream id.
 pub fn rng(seed: u64, stream: u64) -> rand::rngs::StdRng {
